@@ -220,6 +220,7 @@ def rules(ctx):
     for name in ('anneal_quso', 'anneal_puso'):
         C11.same_source_rules(ctx, 'R12.7', ctx.prog.func('_anneal.%s' % name))
     C11.layout_agreement(ctx, 'R12.7')
+    C11.state_value_set(ctx, 'R12.7')       # each anneal starts from its own row of the supplied states (or a +-1 draw)
     C11.boolean_wrappers(ctx, 'R12.7', 'R12.7', 'R12.7')
     for name in ('anneal_quso', 'anneal_puso'):
         C11.marshalling_python(ctx, 'R12.7', ctx.prog.func('_anneal.%s' % name))
